@@ -55,7 +55,7 @@ func MergeSearchResults(lim uint16, firstAttr string, cmpInt bool, sets [][]clie
 			if minInd < 0 {
 				minInd = i
 				if cmpInt {
-					if _, _, err = splitIntString(sets[i][0].Attributes[0]); err != nil {
+					if _, err = compareIntStrings(sets[i][0].Attributes[0], "0"); err != nil {
 						return nil, false, fmt.Errorf("non-int attribute in result #%d", i)
 					}
 				}
@@ -149,6 +149,10 @@ func compareIntStrings(a, b string) (int, error) {
 	nb, db, err := splitIntString(b)
 	if err != nil {
 		return 0, err
+	}
+
+	if compareNormalizedDigits(da, maxSigned256Digits) > 0 || compareNormalizedDigits(db, maxSigned256Digits) > 0 {
+		return 0, errors.New("integer out of range")
 	}
 
 	if na != nb {
